@@ -18,8 +18,9 @@ CONFIG = {'gen': ['SmbCommands'],
  'technique': 'Lean 4: static predicate Conforms on marshal programs (little-endian, declared widths, raw/nested emissions of the declared '
               'kind, per-block declaration order, no assignment after emission, no declared field dropped), decided by the kernel on the '
               'programs regenerated from /repo on every run, and proved sound for all field values against the MS-CIFS encoder written in '
-              'Lean (induction over the statement list); nested wire types proved conforming or refuted one by one; differential '
-              'correspondence on all 114 commands',
+              'Lean (induction over the statement list); the same for programs with loops over list fields (ConformsLists vs '
+              'Spec.Cifs.encodeLists) and with one optional parameter field (ConformsOptional vs Spec.Cifs.encodeOptional); nested wire '
+              'types proved conforming or refuted one by one; differential correspondence on all 114 commands',
  'level_text': 'For all field values and every command whose regenerated marshal program passes the static predicate Conforms, the bytes '
                'Marshal emits are the bytes of an independent MS-CIFS encoder written from the declared field list whenever that encoder '
                "speaks (conforms_sound; conforms_sound_at / conforms_sound_std for the library's own nested encoders outside the three "
@@ -30,13 +31,20 @@ CONFIG = {'gen': ['SmbCommands'],
                '(data buffer ahead of the parameter block) and six structures that never emit a declared field (non_conforming_commands, '
                'core_non_conforming_commands, commands_dropping_fields: LockAndReadResponse.Reserved, NegotiateRequest.WordCount, '
                'NegotiateResponse.ServerName, OpenAndxResponse.NMPipeStatus/Reserved, QueryInformationResponse.Reserved, '
-               'ReadResponse.Reserved); ten programs with loops or conditional fields lie outside the theorem '
-               '(commands_outside_straight_line) and are covered by the differential run only. Nested types: FILETIME, SMB_TIME, SMB_DATE, '
-               'SMB_NMPIPE_STATUS, LOCKING_ANDX_RANGE64, OEM_STRING and the dialect list conform for all values (std_nested_conforms, '
-               'dialects_eq_spec), SMB_STRING for formats 1, 2, 4, 5 (smb_string_conforms); SMB_FILE_ATTRIBUTES is big-endian and '
-               'SMB_STRING format 0x03 carries a length word (file_attributes_big_endian_counterexample, '
-               'smb_string_format3_counterexample, smb_string_format3_never_conforms). On every run the bytes emitted by the real code are '
-               'compared with Spec.Cifs.encode on byte-distinct values for all 114 commands.',
+               'ReadResponse.Reserved); of the ten programs with loops or conditional fields (commands_outside_straight_line) five pass '
+               'ConformsLists (lists_conforming_commands: FindResponse, FindUniqueResponse, LockingAndxRequest, OpenAndxRequest, '
+               'TransactionRequest) and three ConformsOptional (optional_conforming_commands: WriteAndCloseRequest, WriteAndxRequest, '
+               'WriteRawRequest), for which conforms_lists_sound / conforms_optional_sound (+ _at, _std; conforms_ext_shapes; '
+               'std_nested_list_conforms, list_element_types) prove, for all field values, that the emitted bytes are those of '
+               "Spec.Cifs.encodeLists (an array is the concatenation of its elements' encodings) / Spec.Cifs.encodeOptional (short form "
+               'for a zero field, long form otherwise); ReadRawRequest (a field under a condition on the word count Marshal is still '
+               'building) and WriteRequest stay outside (commands_outside_proved_fragments) and are covered by the differential run only. '
+               'Nested types: FILETIME, SMB_TIME, SMB_DATE, SMB_NMPIPE_STATUS, LOCKING_ANDX_RANGE64, OEM_STRING and the dialect list '
+               'conform for all values (std_nested_conforms, dialects_eq_spec), SMB_STRING for formats 1, 2, 4, 5 (smb_string_conforms); '
+               'SMB_FILE_ATTRIBUTES is big-endian and SMB_STRING format 0x03 carries a length word '
+               '(file_attributes_big_endian_counterexample, smb_string_format3_counterexample, smb_string_format3_never_conforms). On '
+               'every run the bytes emitted by the real code are compared with Spec.Cifs.encode / encodeLists / encodeOptional on '
+               'byte-distinct values for all 114 commands.',
  'level_note': 'Trusted: Lean kernel; axioms propext, Classical.choice, Quot.sound; extractor and IR semantics tied by differential '
                'testing (bounded); the MS-CIFS reading in Spec/Cifs.lean is hand-written from the rules of the specification (it places '
                'only the declared fields that some statement emits, which is why dropped fields are reported by Conforms and not by the '
